@@ -327,12 +327,18 @@ def rule_v10(repo):
     from ..flow import flow_of
     res = RuleResult('C10.V10', 'a sweep hands back what the conversion returned at a node only after asking whether it changed the term', floor=1)
     f = repo.func(CONV, 'top_sweep_conv.get_proof_term')
-    rec = need(f.nested.get('rec'), 'top_sweep_conv.get_proof_term: nested rec not found')
+    # the worker: the nested function that calls itself (whatever it is called)
+    workers = [g for g in f.nested.values() if any(isinstance(c, ast.Call) and is_name(c.func, g.name) for c in ast.walk(g.node))]
+    rec = need(workers[0] if workers else None, 'top_sweep_conv.get_proof_term: no nested function that calls itself found')
     cfg, flow = cfg_of(rec.node), flow_of(rec.node)
+    oflow = flow_of(f.node)
+    # names of the enclosing function that stand for the conversion (step = try_conv(self.cv))
+    outer_cv = {nm for nm in oflow.defs if nm not in rec.params() and any(r.startswith('self.cv') for r in oflow.resolve(ast.Name(id=nm, ctx=ast.Load())))}
 
     def from_cv(e):
         roots = flow.resolve(e)
-        return any(r.startswith('self.cv') for r in roots) and not any(r.startswith('rec()') for r in roots)
+        return any(r.startswith('self.cv') or r.split('(')[0].split('.')[0].split('{')[0] in outer_cv for r in roots) and \
+            not any(r.startswith(rec.name + '()') for r in roots)
     asked = [t for t in cfg.test_nodes() if isinstance(t.ast, ast.Call) and call_attr(t.ast) == 'is_reflexive' and from_cv(t.ast.func.value)]
     rets = [r for r in cfg.return_nodes() if r.ast.value is not None and from_cv(r.ast.value)]
     need(rets, 'top_sweep_conv: no return of the conversion\'s result found')
